@@ -366,3 +366,12 @@ Proof.
   exists [(bs "Content-Type", [bs "application/json"])], [(bs "Content-Type", [bs "application/xml"])].
   vm_compute. discriminate.
 Qed.
+
+(* ---------- round 7 ---------- *)
+(* whatever pieces the reader delivers its content in, the file part carries the whole content *)
+Theorem file_part_is_the_content : forall reads, file_part reads = concat reads.
+Proof. intros [|r0 rest]; reflexivity. Qed.
+
+Theorem short_first_read_cuts_the_file :
+  exists reads, file_part_short_first_is_all reads <> concat reads.
+Proof. exists [bs "ab"; bs "cd"]. vm_compute. discriminate. Qed.
